@@ -51,9 +51,11 @@ def st_case(draw):
     # column 5: a function of the key (constant per group), sometimes None for some keys
     f5 = {k: draw(st.sampled_from(['c-' + k, None, 'same'])) for k in keypool}
     col5 = [f5[k] for k in col1]
-    A = [list(r) for r in zip(col1, col2, col3, col4, col5)]
+    # column 6: numbers of mixed type (ints and floats, no two equal in value): a numeric group key orders numerically whatever the types
+    col6 = [draw(st.sampled_from([1, 2, 3, 10, 2.5, 0.5, 7.25, -1, -0.5])) for _ in range(n)]
+    A = [list(r) for r in zip(col1, col2, col3, col4, col5, col6)]
     hdr = draw(st.booleans())
-    a_names = ['k', 'v', 'w', 'g', 'c'] if hdr else None
+    a_names = ['k', 'v', 'w', 'g', 'c', 'm'] if hdr else None
     numcols = {1: k2, 2: k3}
 
     def fld(i):
@@ -82,8 +84,12 @@ def st_case(draw):
         return f, kind
 
     group = None
-    gk = draw(st.integers(0, 3))
-    if gk == 1:
+    gk = draw(st.integers(0, 5))
+    if gk == 4:
+        group = [fld(5)]
+    elif gk == 5:
+        group = [fld(3), fld(5)]
+    elif gk == 1:
         group = [fld(0)]
     elif gk == 2:
         group = [fld(0), fld(3)]
@@ -105,9 +111,9 @@ def st_case(draw):
                 elif form == 1:
                     it = {'k': 'agg', 'fn': fn, 'sp': sp, 'e': qgen.mk('1', '1', 'int')}
                 else:
-                    it = {'k': 'agg', 'fn': fn, 'sp': sp, 'e': fld(draw(st.integers(0, 4)))}
+                    it = {'k': 'agg', 'fn': fn, 'sp': sp, 'e': fld(draw(st.integers(0, 5)))}
             elif fn in ('ARRAY_AGG', 'ANY_VALUE'):
-                it = {'k': 'agg', 'fn': fn, 'sp': sp, 'e': fld(draw(st.integers(0, 4)))}
+                it = {'k': 'agg', 'fn': fn, 'sp': sp, 'e': fld(draw(st.integers(0, 5)))}
                 if fn == 'ARRAY_AGG' and draw(st.integers(0, 3)) == 0:
                     it['e'] = fld(draw(st.integers(0, 3)))
                     it['post'] = draw(st.sampled_from([qgen.mk('lambda v: len(v)', None, 'fn'), qgen.mk("lambda v: '|'.join(str(x) for x in v)", None, 'fn'), qgen.mk('lambda v: v[::-1]', None, 'fn')]))
@@ -160,6 +166,8 @@ def check_case(case, stats=None):
         cl += ['agg-' + f for f in set(fns)]
         if q.get('group') is not None:
             cl.append('group-by-%d' % len(q['group']))
+            if any(g['py'] in ('a6', 'a[6]', 'a.m', 'a["m"]', "a['m']") for g in q['group']):
+                cl.append('group-by-mixed-int-float-key')
         if q.get('where') is not None:
             cl.append('where')
         if q.get('top'):
